@@ -10,7 +10,7 @@ RULE = ("correspondence: the gate list appended by pqm.initialize (classical and
         "the theorem's hypotheses; direct evaluation (harness/props/c17_eval.py): exact marginals of auxiliary, memory and "
         "pattern registers. distinct = distinct (n, pattern, variant); non-trivial = n >= 2")
 ASSUMPTIONS = ["Qiskit h, x, cx, p, cp have their textbook matrices (validated numerically per run)",
-               "the quantum-pattern variant is not proved (it reduces to the classical one on each pattern basis state); it is corresponded and evaluated"]
+               "the quantum-pattern variant is proved branch by branch (C17_pqm_quantum: on each pattern basis state the circuit acts as the classical one and branches never mix); it is also corresponded and evaluated"]
 TRUSTED = ["harness/flatten.py; angle canonicalisation: a float parameter is accepted as num*pi/den only if it is bit-identical to the float qclib computes for that fraction"]
 HEADER = ("From Coq Require Import List Bool Arith ZArith.\nFrom QV Require Import PqmModel CaseLib.\nImport ListNotations.\n"
           "Definition pgate_eqb (g h : pgate) : bool := match g, h with\n"
